@@ -206,6 +206,11 @@ class ZooSDE(torch.nn.Module):
             return -self.stiff * (y - torch.cos(t)) * self.a
         raise ValueError(self.kind)
 
+    def h(self, t, y):
+        """Prior drift (only used with logqp=True)."""
+        t = torch.as_tensor(t, dtype=y.dtype)
+        return -0.4 * y + 0.1 * torch.sin(t)
+
     def g(self, t, y):
         k = self.n_g
         self.n_g += 1
